@@ -1,4 +1,3 @@
 package main
 
-func genShape(p *pkgInfo, out string)    {}
 func genLocks(p *pkgInfo, out string)    {}
